@@ -1,7 +1,9 @@
 import Copia.Driver.C01
+import Copia.Driver.C02
 import Copia.Driver.C17
 import Copia.Driver.C18
 import Copia.Driver.C19
+import Copia.Driver.C20
 /-!
 Line-protocol driver: one query per input line, one canonical answer per output line.
 Built as `lean_exe copia_model` (nothing it imports touches Mathlib).
@@ -13,8 +15,11 @@ def dispatch (line : String) : String :=
   let r : Option String :=
     match toks with
     | "sig" :: _ | "delta" :: _ | "patch" :: _ => C01.handle toks
+    | "bi" :: _ | "biplan" :: _ => C02.handle toks
     | "ck" :: _ => C17.handle toks
     | "glob" :: _ | "excl" :: _ | "plan" :: _ | "nt" :: _ | "parse" :: _ => C19.handle toks
+    | "hdrenc" :: _ | "hdrdec" :: _ | "msgdec" :: _ | "msgenc" :: _ | "sigdec" :: _ | "sigenc" :: _
+    | "deltadec" :: _ | "deltaenc" :: _ | "readmsg" :: _ | "writemsg" :: _ | "clifront" :: _ => C20.handle toks
     | "rp" :: _ | "rec" :: _ => C18.handle toks
     | _ => none
   r.getD "BAD-QUERY"
